@@ -63,7 +63,7 @@ CHECKS = {
  "C18": ("FuncLab+RunnerLab", "exhaustive enumeration of the 28 800-case tag x CLI product plus PBT over random tags / durations / filter ASTs against a reference resolver; CLI-over-builder merge observed on real runs (tags mode) through the C05/C06/C08 oracles",
          "parse_from_tags equals the documented resolution on the complete product of tag forms, placements and CLI values and on random cases; merge of CLI and builder values is observed on generated real runs.",
          "Undocumented retry-prefixed tags only must not panic (R7).", "6/C18"),
- "C19": ("FuncLab", "PBT over step texts (looked up through World::collection() and through its clone) against a compiled zoo of 42 attribute/function pairs with hand-written reference matchers and argument decoders, and against a second zoo of 40 functions generated at build time (harness/build.rs, VERIF_ZOO_SEED; thorough tier: seeds 0..6) with a generic reference computed from the generator's metadata; inventory counted per keyword",
+ "C19": ("FuncLab", "PBT over step texts (looked up through World::collection() and through its clone) against a compiled zoo of 45 attribute/function pairs with hand-written reference matchers and argument decoders, and against a second zoo of 40 functions generated at build time (harness/build.rs, VERIF_ZOO_SEED; thorough tier: seeds 0..6) with a generic reference computed from the generator's metadata; inventory counted per keyword",
          "Registration (count per keyword, reachability), literal / regex / expr matching as written, typed argument delivery in declaration order, slices, #[step] argument, custom Parameters, and failure on parse errors / returned Err hold for the zoo over generated and mutated texts.",
          "The quantifier over programs is a fixed representative zoo plus build-time generated zoos (macro expansion is compile time).", "6/C19"),
  "C20": ("vtrace", "PBT with token accounting: generated RunnerLab cases whose callbacks emit uniquely tokenised tracing events before and after gate awaits; real Cucumber::run with init_tracing() polled by hand in one child process per case under harness-chosen schedules",
